@@ -38,9 +38,18 @@ class Source:
     if self.count > 400: raise AssertionError("stage reads without bound")
     if self.kind == "elem": v = self.ctx.elem("%s%d" % (self.tag, i))
     elif self.kind == "real": v = self.ctx.real("%s%d" % (self.tag, i))
+    elif self.kind == "nonzero": v = self.ctx.real("%s%d" % (self.tag, i), nonzero=True)
     else: v = [0.5, -0.25, 0.75, 0.0, -1.0, 0.125][i % 6]
     self.vals.append(v)
     return v
+
+
+class Reiterable:
+  """An iterable that is neither a Stream nor an iterator: every iter() starts a new generator over the same live source
+  (a sensor, an open file).  A stage must iterate its input once."""
+  def __init__(self, src): self.src = src
+  def __iter__(self):
+    for v in self.src: yield v
 
 
 def _registry():
@@ -97,6 +106,10 @@ def _registry():
   add("Cascade", lambda s, P: CascadeFilter(1 + z ** -1, 1 / (1 - 0.5 * z ** -1))(s, zero=0), k_, data="real")
   add("Parallel", lambda s, P: ParallelFilter(1 + z ** -1, z ** -2, 1 / (1 - 0.5 * z ** -1))(s, zero=0), k_, data="real")
   add("Parallel-empty", lambda s, P: ParallelFilter()(s, zero=0), k_, data="real")
+  add("Parallel(re-iterable)", lambda s, P: ParallelFilter(1 + z ** -1, z ** -2, 1 / (1 - 0.5 * z ** -1))(Reiterable(s), zero=0), k_, data="real")
+  add("Cascade(re-iterable)", lambda s, P: CascadeFilter(1 + z ** -1, 1 / (1 - 0.5 * z ** -1))(Reiterable(s), zero=0), k_, data="real")
+  add("IIR(re-iterable)", lambda s, P: ((1 + z ** -1) / (1 - 0.5 * z ** -1))(Reiterable(s), zero=0), k_, data="real")
+  add("Stream(re-iterable)+Stream", lambda s, P: (lambda st: st + 1)(Stream(Reiterable(s))), k_)
   # analysis tools
   add("maverage.deque", lambda s, P: al.maverage.deque(P["size"])(s, zero=0), k_, data="real", params=("size",))
   add("maverage.recursive", lambda s, P: al.maverage.recursive(P["size"])(s, zero=0), k_, data="real", params=("size",))
@@ -294,7 +307,7 @@ def h_secondary(ctx, cfg):
   import audiolazy as al
   from audiolazy import Stream, z
   with _patched():
-    src = Source(ctx, "real"); mem = Source(ctx, "real", tag="m")
+    src = Source(ctx, "real"); mem = Source(ctx, "nonzero" if cfg["stage"] == "gain-stream" else "real", tag="m")
     wrap = {"iterator": lambda m: m, "stream": lambda m: Stream(m), "generator": lambda m: (v for v in m)}[cfg["mem"]]
     lm = cfg["lm"]
     if cfg["stage"] == "filter":
@@ -304,6 +317,21 @@ def h_secondary(ctx, cfg):
       stage = al.CascadeFilter(1 / (1 - 0.5 * z ** -lm))(src, memory=wrap(mem), zero=0)
     elif cfg["stage"] == "karplus":
       stage = al.karplus_strong(2 * 3.141592653589793 / lm, memory=wrap(mem))
+    elif cfg["stage"] in ("gain-stream", "tap-stream"):
+      # a coefficient Stream is a second lazy input too: nothing of it is read while the stage is built, then one
+      # value per output
+      coef = Stream(mem)
+      filt = (1 / (coef - 0.5 * z ** -1)) if cfg["stage"] == "gain-stream" else (1 + coef * z ** -lm)
+      stage = filt(src, zero=0)
+      ctx.prove(src.count == 0 and mem.count == 0, "no-read-at-construction",
+                "signal read %d, coefficient stream read %d while the stage was built" % (src.count, mem.count))
+      itr = iter(stage)
+      k = ctx.split("k", 0, cfg["K"])
+      for i in range(1, k + 1):
+        next(itr)
+        ctx.prove(src.count == i and mem.count == i, "reads-exactly-what-it-needs",
+                  "after %d outputs: %d signal items, %d coefficient values" % (i, src.count, mem.count))
+      return
     else: raise ValueError(cfg["stage"])
     ctx.prove(src.count == 0, "no-read-at-construction", "signal read %d items while the stage was built" % src.count)
     ctx.prove(mem.count <= lm + 1, "secondary-input-read-is-bounded-at-construction",
@@ -368,6 +396,8 @@ def tasks(tier, seed):
     for memk in ("iterator", "stream", "generator"):
       for lm in (1, 2, 3):
         T.append(("h_secondary", {"stage": stage, "mem": memk, "lm": lm, "K": 3}))
+  for stage in ("gain-stream", "tap-stream"):
+    T.append(("h_secondary", {"stage": stage, "mem": "iterator", "lm": 1, "K": 3}))
   for st in ("Stream.limit", "islice", "Stream.take", "limit.copy", "limit+1", "peek-then-limit", "zip-with-finite"):
     T.append(("h_exhaust", {"stage": st, "K": K}))
   return T
